@@ -36,7 +36,13 @@ type option struct {
 	Name    string
 	apply   func(l *har.Logger)
 	capture func(m *msggen.Msg) bool // reference: is the body of m to be captured under this option?
+	// Extra options (everything beyond the four paired ones) are run on the sub-space of the body sizes
+	// extraOptionSizes (all of the header and edge spaces' small bodies, four classes of the body space):
+	// whether a body is captured does not depend on its size.
+	Extra bool
 }
+
+var extraOptionSizes = map[int]bool{0: true, 1: true, 5: true, 300: true, 513: true, 4096: true}
 
 var (
 	optIn  = []string{"text/", "application/json", "form-data"}   // "form-data" is a substring, not a prefix, of multipart/form-data
@@ -53,20 +59,80 @@ func ctHasPrefix(m *msggen.Msg, prefixes ...string) bool {
 	return false
 }
 
+func isRequest(m *msggen.Msg) bool { return m.Spec.Kind == "request" }
+
+var (
+	optUpper = []string{"TEXT/", "Application/X-WWW", "multipart/form-data; boundary=" + msggen.Boundary}
+	optOne   = []string{"application/"}
+)
+
 var options = []option{
-	{"all", func(l *har.Logger) {}, func(m *msggen.Msg) bool { return true }},
-	{"none", func(l *har.Logger) { l.SetOption(har.PostDataLogging(false), har.BodyLogging(false)) }, func(m *msggen.Msg) bool { return false }},
+	{"all", func(l *har.Logger) {}, func(m *msggen.Msg) bool { return true }, false},
+	{"none", func(l *har.Logger) { l.SetOption(har.PostDataLogging(false), har.BodyLogging(false)) }, func(m *msggen.Msg) bool { return false }, false},
 	{"optin", func(l *har.Logger) {
 		l.SetOption(har.PostDataLoggingForContentTypes(optIn...), har.BodyLoggingForContentTypes(optIn...))
-	}, func(m *msggen.Msg) bool { return ctHasPrefix(m, optIn...) }},
+	}, func(m *msggen.Msg) bool { return ctHasPrefix(m, optIn...) }, false},
 	{"optout", func(l *har.Logger) {
 		l.SetOption(har.SkipPostDataLoggingForContentTypes(optOut...), har.SkipBodyLoggingForContentTypes(optOut...))
-	}, func(m *msggen.Msg) bool { return !ctHasPrefix(m, optOut...) }},
+	}, func(m *msggen.Msg) bool { return !ctHasPrefix(m, optOut...) }, false},
+
+	// the post-data option and the body option are independent settings
+	{"post=all,body=none", func(l *har.Logger) { l.SetOption(har.PostDataLogging(true), har.BodyLogging(false)) },
+		func(m *msggen.Msg) bool { return isRequest(m) }, true},
+	{"post=none,body=all", func(l *har.Logger) { l.SetOption(har.BodyLogging(true), har.PostDataLogging(false)) },
+		func(m *msggen.Msg) bool { return !isRequest(m) }, true},
+	{"post=optin,body=optout", func(l *har.Logger) {
+		l.SetOption(har.PostDataLoggingForContentTypes(optIn...), har.SkipBodyLoggingForContentTypes(optOut...))
+	}, func(m *msggen.Msg) bool {
+		if isRequest(m) {
+			return ctHasPrefix(m, optIn...)
+		}
+		return !ctHasPrefix(m, optOut...)
+	}, true},
+	{"post=optout,body=optin", func(l *har.Logger) {
+		l.SetOption(har.BodyLoggingForContentTypes(optIn...), har.SkipPostDataLoggingForContentTypes(optOut...))
+	}, func(m *msggen.Msg) bool {
+		if isRequest(m) {
+			return !ctHasPrefix(m, optOut...)
+		}
+		return ctHasPrefix(m, optIn...)
+	}, true},
+	{"post=optin(one),body=optin", func(l *har.Logger) {
+		l.SetOption(har.PostDataLoggingForContentTypes(optOne...), har.BodyLoggingForContentTypes(optIn...))
+	}, func(m *msggen.Msg) bool {
+		if isRequest(m) {
+			return ctHasPrefix(m, optOne...)
+		}
+		return ctHasPrefix(m, optIn...)
+	}, true},
+	// option histories: the setting made last is the one in force
+	{"none,then all", func(l *har.Logger) {
+		l.SetOption(har.PostDataLogging(false), har.BodyLogging(false))
+		l.SetOption(har.PostDataLogging(true))
+		l.SetOption(har.BodyLogging(true))
+	}, func(m *msggen.Msg) bool { return true }, true},
+	{"optin,then optout", func(l *har.Logger) {
+		l.SetOption(har.PostDataLoggingForContentTypes(optIn...), har.BodyLoggingForContentTypes(optIn...))
+		l.SetOption(har.SkipPostDataLoggingForContentTypes(optOut...), har.SkipBodyLoggingForContentTypes(optOut...))
+	}, func(m *msggen.Msg) bool { return !ctHasPrefix(m, optOut...) }, true},
+	{"optout,then none,then optin(upper)", func(l *har.Logger) {
+		l.SetOption(har.SkipPostDataLoggingForContentTypes(optOut...), har.SkipBodyLoggingForContentTypes(optOut...))
+		l.SetOption(har.BodyLogging(false), har.PostDataLogging(false))
+		l.SetOption(har.BodyLoggingForContentTypes(optUpper...), har.PostDataLoggingForContentTypes(optUpper...))
+	}, func(m *msggen.Msg) bool { return ctHasPrefix(m, optUpper...) }, true},
+	// empty lists: opting in to nothing captures nothing, opting out of nothing captures everything
+	{"optin(empty)", func(l *har.Logger) {
+		l.SetOption(har.PostDataLoggingForContentTypes(), har.BodyLoggingForContentTypes())
+	}, func(m *msggen.Msg) bool { return false }, true},
+	{"optout(empty)", func(l *har.Logger) {
+		l.SetOption(har.SkipPostDataLoggingForContentTypes(), har.SkipBodyLoggingForContentTypes())
+	}, func(m *msggen.Msg) bool { return true }, true},
 }
 
 type replayCase struct {
-	Spec   msggen.Spec `json:"spec"`
-	Option string      `json:"option"`
+	Spec    msggen.Spec `json:"spec"`
+	Option  string      `json:"option"`
+	Session *sessionID  `json:"session,omitempty"` // set for cases of the session family
 }
 
 // ---- scenario classes -------------------------------------------------------------------------------------
@@ -428,10 +494,21 @@ func checkResponse(m *msggen.Msg, capture bool, r *har.Response) (out []finding)
 		return
 	}
 	if m.Corrupt {
-		return // "fully decoded" is undefined for corrupt data; only that an entry exists is required
+		// "fully decoded" is undefined for corrupt data: the body as received or whatever part of it decodes is
+		// accepted - but the content is the BODY, for any framing: it never holds chunk-size lines
+		if string(c.Text) != string(m.Encoded) && !strings.HasPrefix(string(m.Payload), string(c.Text)) {
+			add("har:response:"+bodyTag(m)+",corrupt:content_text_mismatch", fmt.Sprintf("content text %d bytes %s is neither the body as received (%d bytes %s) nor a decodable part of it", len(c.Text), clip(string(c.Text)), len(m.Encoded), clip(string(m.Encoded))))
+		} else if c.Size != int64(len(c.Text)) {
+			add("har:response:"+bodyTag(m)+",corrupt:content_size_mismatch", fmt.Sprintf("content size %d, the content text has %d bytes", c.Size, len(c.Text)))
+		}
+		return
 	}
 	want := m.Payload
 	if !m.Decodable {
+		want = m.Encoded
+	}
+	if m.Partial && string(c.Text) == string(m.Encoded) {
+		// 206: the body is a fragment of the coded representation, it need not be decodable on its own
 		want = m.Encoded
 	}
 	if string(c.Text) != string(want) {
@@ -454,6 +531,28 @@ func hasNonUTF8Param(pd *har.PostData) bool {
 		}
 	}
 	return false
+}
+
+func hasNonUTF8ParamName(pd *har.PostData) bool {
+	if pd == nil {
+		return false
+	}
+	for _, p := range pd.Params {
+		if !utf8.ValidString(p.Name) {
+			return true
+		}
+	}
+	return false
+}
+
+// nonUTF8Headers is the signature suffix for a header list that holds bytes which are not UTF-8.
+func nonUTF8Headers(hs []har.Header) string {
+	for _, h := range hs {
+		if !utf8.ValidString(h.Name) || !utf8.ValidString(h.Value) {
+			return "(non_utf8)"
+		}
+	}
+	return ""
 }
 
 func equalHeaders(a, b []har.Header) bool {
@@ -505,13 +604,19 @@ func roundTrip(m *msggen.Msg, kind string, orig, back *har.Entry) (out []finding
 			add("request_scalars", fmt.Sprintf("%v became %v", *a, *b))
 		}
 		if !equalHeaders(a.Headers, b.Headers) {
-			add("request_headers", fmt.Sprintf("%v became %v", a.Headers, b.Headers))
+			add("request_headers"+nonUTF8Headers(a.Headers), fmt.Sprintf("%q became %q", a.Headers, b.Headers))
 		}
 		if !equalCookies(cookieList(a.Cookies), cookieList(b.Cookies)) {
 			add("request_cookies", fmt.Sprintf("%v became %v", a.Cookies, b.Cookies))
 		}
 		if fmt.Sprint(a.QueryString) != fmt.Sprint(b.QueryString) || len(a.QueryString) != len(b.QueryString) {
-			add("query", fmt.Sprintf("%v became %v", a.QueryString, b.QueryString))
+			what := "query"
+			for _, q := range a.QueryString {
+				if !utf8.ValidString(q.Name) || !utf8.ValidString(q.Value) {
+					what = "query(non_utf8)"
+				}
+			}
+			add(what, fmt.Sprintf("%q became %q", a.QueryString, b.QueryString))
 		}
 		switch {
 		case (a.PostData == nil) != (b.PostData == nil):
@@ -533,7 +638,9 @@ func roundTrip(m *msggen.Msg, kind string, orig, back *har.Entry) (out []finding
 			}
 			if !same {
 				what := "postdata_params"
-				if hasNonUTF8Param(a.PostData) {
+				if hasNonUTF8ParamName(a.PostData) && truthHasNonUTF8Params(m) {
+					what += "(non_utf8,parameter_name)"
+				} else if hasNonUTF8Param(a.PostData) {
 					if truthHasNonUTF8Params(m) {
 						what += "(non_utf8,binary_parameter)"
 					} else {
@@ -549,7 +656,7 @@ func roundTrip(m *msggen.Msg, kind string, orig, back *har.Entry) (out []finding
 			add("response_scalars", fmt.Sprintf("status/version/redirect changed: %d %q %q became %d %q %q", a.Status, a.HTTPVersion, a.RedirectURL, b.Status, b.HTTPVersion, b.RedirectURL))
 		}
 		if !equalHeaders(a.Headers, b.Headers) {
-			add("response_headers", fmt.Sprintf("%v became %v", a.Headers, b.Headers))
+			add("response_headers"+nonUTF8Headers(a.Headers), fmt.Sprintf("%q became %q", a.Headers, b.Headers))
 		}
 		if !equalCookies(cookieList(a.Cookies), cookieList(b.Cookies)) {
 			add("response_cookies", fmt.Sprintf("%v became %v", a.Cookies, b.Cookies))
@@ -591,9 +698,24 @@ func main() {
 	mlog.SetLevel(mlog.Silent)
 	rep := lib.NewReport("C16", "model_checking")
 	tier := lib.Tier()
-	specs := append(msggen.BodySpace(tier), msggen.HeaderSpace(tier)...)
-	nBody := len(msggen.BodySpace(tier))
+	// quick: every size class up to one bufio buffer with every chunk list, the two large classes with the
+	// quick chunk lists; thorough: everything with everything
+	body := append(msggen.BodySpaceOf(quickSmallSizes, msggen.ChunkingsThorough), msggen.BodySpaceOf(quickLargeSizes, msggen.ChunkingsQuick)...)
+	if tier == "thorough" {
+		body = msggen.BodySpaceOf(msggen.SizesWideThorough, msggen.ChunkingsThorough)
+	}
+	nBody := len(body)
+	specs := append(body, msggen.HeaderSpace("thorough")...)
+	nHeader := len(specs) - nBody
+	specs = append(specs, msggen.EdgeSpace(tier)...)
 
+	parts := map[string]bool{"single": true, "session": true}
+	if p := os.Getenv("VERIF_C16_PARTS"); p != "" { // development aid: run only some families
+		parts = map[string]bool{}
+		for _, x := range strings.Split(p, ",") {
+			parts[x] = true
+		}
+	}
 	var only *replayCase
 	if f := os.Getenv("VERIF_REPLAY"); f != "" {
 		b, err := os.ReadFile(f)
@@ -625,6 +747,9 @@ func main() {
 	}
 	pending := make([][]pendingViolation, len(specs)) // reported in enumeration order (simplest message first)
 
+	if only != nil && only.Session != nil || !parts["single"] {
+		specs = nil
+	}
 	lib.Parallel(len(specs), func(i int) {
 		spec := specs[i]
 		m := msggen.Build(spec)
@@ -634,6 +759,9 @@ func main() {
 		}
 		for _, opt := range options {
 			if only != nil && only.Option != "" && only.Option != opt.Name {
+				continue
+			}
+			if opt.Extra && !extraOptionSizes[spec.Size] {
 				continue
 			}
 			rc := replayCase{Spec: spec, Option: opt.Name}
@@ -664,7 +792,7 @@ func main() {
 				if isReq {
 					req, err = m.ParseRequest()
 				} else {
-					req = msggen.StdRequest()
+					req = m.Request()
 					res, err = m.ParseResponse(req)
 				}
 				if err != nil {
@@ -746,6 +874,18 @@ func main() {
 		}
 	}
 
+	if parts["session"] && (only == nil || only.Session != nil) {
+		sc := runSessionFamily(rep, tier, only)
+		for k, v := range sc {
+			rep.Coverage[k] = v
+		}
+		cases += sc["session_cases"]
+		transitions += sc["session_transitions"]
+		nontrivial += sc["session_cases_with_reused_capacity"]
+		fieldChecks += sc["session_entries_compared_with_model"]
+		jsonBytes += sc["session_json_bytes"]
+	}
+
 	rep.Coverage["states"] = cases
 	rep.Coverage["transitions"] = transitions
 	rep.Coverage["traces_validated_against_impl"] = cases
@@ -753,7 +893,8 @@ func main() {
 	rep.Coverage["distinct_nontrivial"] = nontrivial
 	rep.Coverage["messages"] = len(specs)
 	rep.Coverage["messages_body_space"] = nBody
-	rep.Coverage["messages_header_space"] = len(specs) - nBody
+	rep.Coverage["messages_header_space"] = nHeader
+	rep.Coverage["messages_edge_space"] = len(specs) - nBody - nHeader
 	rep.Coverage["capture_options"] = len(options)
 	rep.Coverage["cases_with_captured_nonempty_body"] = captured
 	rep.Coverage["cases_with_captured_non_utf8_body"] = nonUTF8
@@ -762,8 +903,8 @@ func main() {
 	rep.Coverage["violating_cases"] = violCases
 	rep.Coverage["distinct_outcomes"] = distinctOutcomes
 	rep.Coverage["exhaustive"] = only == nil
-	rep.Coverage["rule"] = "cases = every message of msggen.BodySpace ∪ HeaderSpace x capture option {all, none, opt-in, opt-out}; states = distinct (message, option) pairs; a case is non-trivial when the body is non-empty, the option captures it, and the model has to do more than copy bytes: the message is chunked, content-coded, not valid UTF-8, or a form/multipart body that is parsed into parameters"
-	rep.Coverage["bounds"] = fmt.Sprintf("tier %s: body space = {request POST, response 200} x sizes %v x {Content-Length, close (responses), chunked x chunk lists x trailers 0..2} x content codings %v x content types requests %v / responses %v (form sets: 1 pair, 4 pairs with a repeated name / reserved characters / empty value, non-UTF-8 and non-ASCII pairs; multipart sets: 1 field, field + text file, binary file + field; a pad parameter brings the body to the requested size); header space = requests {GET,POST,PUT} x HTTP/1.1,1.0 x query pool %q x Cookie pool %q x repeated/empty header pool, responses {200,201,301,302,404,204,304} x versions x Set-Cookie pool %q x header pool x Location pool %q; opt-in list %v, opt-out list %v",
+	rep.Coverage["rule"] = "cases = every message of msggen.BodySpace ∪ HeaderSpace ∪ EdgeSpace x capture option {all, none, opt-in, opt-out} (every message) and x 10 further option settings (post-data and body options set independently, option histories where the last setting wins, empty / one-element / upper-case prefix lists) on the messages of 6 body-size classes; states = distinct (message, option) pairs; a case is non-trivial when the body is non-empty, the option captures it, and the model has to do more than copy bytes: the message is chunked, content-coded, not valid UTF-8, or a form/multipart body that is parsed into parameters. Session family: every sequence of K full exchanges (request + its own response) over a pool of 8 exchanges x response arrival order {sequential, after all requests in reverse order, after all requests in request order} x options {all, opt-in}, plus the length-1 baseline, logged through one logger; all entries are compared with the model of their own exchange only after the last exchange was logged, then the export handler's JSON and the reset handler's JSON (?return=true) are parsed back and compared entry by entry and the log must be empty; a session is non-trivial when a later captured response body fits into the memory of an earlier one"
+	rep.Coverage["bounds"] = fmt.Sprintf("tier %s: body space = {request POST, response 200} x sizes %v (quick: the classes above 4097 with 3 of the 5 chunk lists) x {Content-Length, close (responses), chunked x chunk lists x trailers 0..2} x content codings %v x content types requests %v / responses %v (form sets: 1 pair, 4 pairs with a repeated name / reserved characters / empty value, non-UTF-8 and non-ASCII pairs; multipart sets: 1 field, field + text file, binary file + field; a pad parameter brings the body to the requested size); header space = requests {GET,POST,PUT} x HTTP/1.1,1.0 x query pool %q x Cookie pool %q x repeated/empty header pool, responses {200,201,301,302,404,204,304} x versions x Set-Cookie pool %q x header pool x Location pool %q; opt-in list %v, opt-out list %v; edge space = request methods {GET,DELETE,PATCH,OPTIONS,PUT} with a body, content types {absent, unparseable media type, form with parameters / in upper case / with a non-UTF-8 parameter name / that does not parse, multipart with quoted boundary / without boundary / with an empty and a typed part} x framings x {identity, gzip, zlib deflate, unknown coding}, non-UTF-8 bytes in a query value and in a header value, 206 x codings x framings, 304 and answers to HEAD {200,404,301} with Content-Length / chunked framing headers and no body, Location on {200,201,404}; session length K = 3 (quick) / 4 (thorough)",
 		tier, sizesFor(tier), msggen.Encodings, msggen.RequestCTs, msggen.ResponseCTs, msggen.QueryRaw, msggen.ReqCookieHeaders, msggen.ResCookieHeaders, msggen.Locations, optIn, optOut)
 	rep.Assumptions = []string{
 		"the reference values are the generator's own lists (header lines, query pairs, cookies, form pairs, multipart parts, payload before/after content coding); martian and net/http parsing results are never used as expectations",
@@ -774,14 +915,22 @@ func main() {
 		"content types match capture prefixes case-insensitively (media types are case-insensitive)",
 		"response content of a body under an unknown coding (br) is the body as received; for deliberately corrupt gzip only the existence of the entry and its metadata are required",
 		"when capture is disabled only the absence of body text/parameters is required (sizes are not compared)",
+		"206 Partial Content: the body is a fragment, so the decoded fragment or the fragment as received is accepted; corrupt gzip: the body as received (without chunk framing) or any decodable prefix is accepted",
+		"a response to HEAD and a 304 have no body whatever their framing headers say: the content must be empty; a Location header on a response outside 3xx is not a redirect URL",
+		"a form body that does not parse (invalid escape) and a multipart body without a boundary parameter have no parameter list: the post data text must be the body",
 		"requests are in absolute-form as a proxy receives them",
 	}
 	rep.Finish()
 }
 
+var (
+	quickSmallSizes = []int{0, 1, 2, 511, 512, 513, 4095, 4096, 4097}
+	quickLargeSizes = []int{32769, 65537}
+)
+
 func sizesFor(tier string) []int {
 	if tier == "thorough" {
-		return msggen.SizesThorough
+		return msggen.SizesWideThorough
 	}
-	return msggen.SizesQuick
+	return append(append([]int{}, quickSmallSizes...), quickLargeSizes...)
 }
